@@ -56,26 +56,39 @@ def _replay_shard(chk, h):
                       dict(kind='shard', history=h, step=step_no, got=got, want=want))
         return
   else:
-    for st in h['steps']:
+    src = io.ShardedIterable(data)
+    for step_no, st in enumerate(h['steps']):
       try:
-        src = io.ShardedIterable(data).shard(st['i'], st['k'])
-        full = list(src)
-        state = dc.replace(src.state, start_index=st['off'])
-        resumed = list(src.iterate().from_state(state))
+        if st['op'] == 'rr':
+          src = src.shard(st['i'], st['k'])
+        else:      # consume c elements, capture the iterator state, rebuild the source from it
+          it = src.iterate()
+          for _ in range(st['c']):
+            next(it)
+          src = io.ShardedIterable(data).from_state(it.state)
+        got = dict(elems=list(src), state=(src.state.shard_index, src.state.num_shards, src.state.start_index),
+                   iterator_restored=list(src.iterate().from_state(src.iterate().state)))
       except Exception as e:  # pylint: disable=broad-exception-caught
-        chk.violation(f'rr:exception:{type(e).__name__}', f'{e!r} {h}', dict(kind='shard', history=h))
+        chk.violation(f'rr:exception:{type(e).__name__}', f'{e!r} at step {step_no} of {h}',
+                      dict(kind='shard', history=h, step=step_no))
         return
-      want = sorted(st['elems'])
-      want_full = [j for j in range(n) if j % st['k'] == st['i']]
-      if full != want_full or resumed != want:
-        chk.violation('rr:elements', f'full={full} want={want_full} resumed={resumed} want={want}',
-                      dict(kind='shard', history=h))
+      want_elems = sorted(st['elems'])
+      if got['elems'] != want_elems or got['iterator_restored'] != want_elems:
+        nested = sum(1 for x in h['steps'][:step_no + 1] if x['op'] == 'rr') > 1
+        resumed = any(x['op'] == 'resume' for x in h['steps'][:step_no + 1])
+        chk.violation('rr:elements' + (':nested' if nested else '') + (':resumed' if resumed else ''),
+                      f'step {step_no} of {h["steps"]} over {n} elements: got {got}, the specification says {want_elems}',
+                      dict(kind='shard', history=h, step=step_no))
         return
+      # the representation is not part of the property: a different but equivalent state is only reported
+      if got['state'][:2] != (st['fi'], st['fk']) and not getattr(chk, '_rr_drift', False):
+        chk._rr_drift = True
+        print(f'MODEL-DRIFT property=C09 ShardedIterable keeps {got["state"]} where Shard.tla keeps ({st["fi"]}, {st["fk"]}, {st["from"]})')
 
 
 def _shard_part(chk, b):
   consts = b['shard']
-  invs = ['Within', 'Partition', 'RoundRobinPartition', 'StateRoundTrip']
+  invs = ['Within', 'Partition', 'RoundRobinPartition', 'RRClosedForm', 'RRWithin', 'StateRoundTrip']
   mc = tlc.run('source', 'Shard',
                tlc.cfg_text(constants=consts, invariants=invs, view='View', deadlock=False),
                coverage=True, timeout=900)
@@ -83,7 +96,7 @@ def _shard_part(chk, b):
   if not mc.ok:
     # A failure of the specification alone is not a verdict on the code: replay decides.
     chk.machinery_failure(f'Shard.tla violates {mc.error_kind} {mc.error_name}: spec and code must be re-aligned')
-  missing = tlc.require_covered(mc, ['ShardStep', 'RRStep'])
+  missing = tlc.require_covered(mc, ['ShardStep', 'RRStep', 'RRResume'])
   if missing:
     chk.machinery_failure(f'vacuous model: actions never taken {missing}')
   gen = tlc.run('source', 'Shard',
